@@ -354,6 +354,7 @@ class Engine:
             return StrV(t[1:t.rindex('"')])
         if t.startswith('b"'): return StrV(t[2:t.rindex('"')])
         if t in s.bodies.simple: return s.const(s.bodies.simple[t], st)
+        if t in s.alias and s.alias[t] in s.bodies.simple: return s.const(s.bodies.simple[s.alias[t]], st)
         if t in s.bodies:
             if t not in s.const_cache:
                 cs = s.new_state(); cs.frames.append(Frame(s.bodies[t], 1))
@@ -926,7 +927,7 @@ def strip_generics(f):
 def build_aliases(bodies, repo='/repo'):
     """map call-site names (module::Type::method, (Type, Trait, method)) to body names"""
     alias = {}; src_cache = {}
-    for name in bodies.keys():
+    for name in list(bodies.keys()) + list(getattr(bodies, 'simple', {}).keys()):
         m = re.match(r'^(.*?)<impl at (src/[^:]+):(\d+):(\d+): [^>]*>::(.*)$', name)
         if not m: continue
         mod, file, line, col, rest = m.group(1), m.group(2), int(m.group(3)), int(m.group(4)), m.group(5)
